@@ -56,6 +56,16 @@ Lemma T_C01_len c w i m :
   rt_len (m_rt m) = N.of_nat (size (rt_abs (m_rt m))).
 Proof. intros HR Hr Hi. symmetry. eapply Inv_len. eapply reachable_slot; eauto. Qed.
 
+(* core_op excludes nothing but size arguments a Rust caller cannot pass (beyond usize::MAX) *)
+Lemma T_C01_every_operation_is_covered (o : op) :
+  match o with
+  | OReserve _ n | OTryReserve _ n => n <= usize_max
+  | OExtend _ _ hint => hint <= usize_max
+  | OParExtend _ chunks => N.of_nat (length (concat chunks)) < usize_max
+  | _ => True
+  end -> core_op o.
+Proof. destruct o; cbn; auto. Qed.
+
 (* ---------------------------------------------------------------- C03 *)
 
 Lemma T_C03_step c k kid v s res s' :
